@@ -5,6 +5,8 @@ P=$1; shift
 cd /verif
 [ -z "$(git -C /repo status --porcelain)" ] || { echo "/repo not clean"; exit 2; }
 git -C /repo apply "$P" || { echo "patch does not apply"; exit 2; }
+# evidence files must only ever describe runs on the unchanged tree: set them aside
+rm -rf /verif/.work/evidence.keep && cp -r /verif/evidence /verif/.work/evidence.keep
 for prop in "$@"; do
   rm -rf replays
   ./check $prop > /tmp/runseed.out 2>/tmp/runseed.err; rc=$?
@@ -13,4 +15,5 @@ for prop in "$@"; do
 import json,sys;d=json.load(open('$f'));print('   ',d.get('stage'),'|',(d.get('readable') or '')[:120],'|',(d.get('oracle') or str(d.get('theorem')))[:160])"; done
 done
 git -C /repo checkout -- . ; git -C /repo clean -fdq
+rm -rf /verif/evidence && mv /verif/.work/evidence.keep /verif/evidence
 rm -rf replays
